@@ -194,4 +194,356 @@ structure Agree (s s' : State) : Prop where
   keyed : s'.keyed = s.keyed
   mint : s'.mintMax = s.mintMax ∧ s'.mintMin = s.mintMin ∧ s'.mintRate = s.mintRate ∧ s'.minterInfl = s.minterInfl
 
+/-! ## The exported genesis of a well-formed state is valid -/
+
+section valid
+variable {s : State}
+
+theorem linked_nodes_present (h : GenWF s) (i : Nat) (a : Addr) (hl : s.nodeForPlan.get (i, a) = some ()) :
+    ∃ n, s.nodeActive.get a = some n ∨ s.nodeInactive.get a = some n := (h.links i a hl).2
+
+theorem export_no_panic (h : GenWF s) : exportPanics s = false := by
+  unfold exportPanics
+  rw [List.any_eq_false]
+  intro p _
+  rw [Bool.not_eq_true, List.any_eq_false]
+  intro a ha
+  obtain ⟨n, hn⟩ := linked_nodes_present h p.id a (mem_linkedAddrs.mp ha)
+  rw [(getNode_iff h.node).mpr hn]; simp
+
+theorem deposits_valid (h : GenWF s) : validateDepositGenesis (exportTbl deposit.DepositKey s.deposits) = none := by
+  unfold validateDepositGenesis
+  rw [firstOf_eq_none]
+  intro x hx
+  simp only [List.mem_cons, List.not_mem_nil, or_false] at hx
+  rcases hx with rfl | rfl
+  · rw [chk_eq_none, not_hasDup]; exact exportTbl_nodup _ h.depNodup
+  · rw [firstErr_eq_none]
+    rintro ⟨a, cs⟩ hd
+    exact h.depValid a cs (mem_exportTbl.mp hd)
+
+theorem providers_valid (h : GenWF s) : validateProviderGenesis (exportProviders s) s.params.provider = none := by
+  unfold validateProviderGenesis
+  rw [firstOf_eq_none]
+  intro x hx
+  simp only [List.mem_cons, List.not_mem_nil, or_false] at hx
+  rcases hx with rfl | rfl | rfl
+  · exact h.paramsValid.1
+  · rw [chk_eq_none, not_hasDup]; exact h.prov.keys_nodup _ _
+  · rw [firstErr_eq_none]
+    intro p hp
+    obtain ⟨a, ha⟩ := (PartOK.mem _ _).mp hp
+    exact h.provValid a p ha
+
+theorem nodes_valid (h : GenWF s) : validateNodeGenesis (exportNodes s) s.params.node = none := by
+  unfold validateNodeGenesis
+  rw [firstOf_eq_none]
+  intro x hx
+  simp only [List.mem_cons, List.not_mem_nil, or_false] at hx
+  rcases hx with rfl | rfl | rfl
+  · exact h.paramsValid.2.1
+  · rw [chk_eq_none, not_hasDup]; exact h.node.keys_nodup _ _
+  · rw [firstErr_eq_none]
+    intro p hp
+    obtain ⟨a, ha⟩ := (PartOK.mem _ _).mp hp
+    exact h.nodeValid a p ha
+
+theorem plans_valid (h : GenWF s) : validatePlanGenesis (exportPlans s) = none := by
+  unfold validatePlanGenesis
+  rw [firstOf_eq_none]
+  intro x hx
+  simp only [List.mem_cons, List.not_mem_nil, or_false] at hx
+  rcases hx with rfl | rfl | rfl
+  · rw [chk_eq_none, not_hasDup]
+    have : (exportPlans s).map (·.plan.id) = (exportPlanRecs s).map (·.id) := by
+      unfold exportPlans; rw [List.map_map]; rfl
+    rw [this]; exact h.plan.keys_nodup _ _
+  · rw [firstErr_eq_none]
+    intro it hit
+    unfold exportPlans at hit
+    obtain ⟨p, _, rfl⟩ := List.mem_map.mp hit
+    rw [chk_eq_none, not_hasDup]
+    show (exportPlanNodes s p.id).Nodup
+    rw [exportPlanNodes_eq h.node p.id (linked_nodes_present h p.id)]
+    exact linkedAddrs_nodup h.linkNodup _
+  · rw [firstErr_eq_none]
+    intro it hit
+    unfold exportPlans at hit
+    obtain ⟨p, hp, rfl⟩ := List.mem_map.mp hit
+    obtain ⟨i, hi⟩ := (PartOK.mem _ _).mp hp
+    exact h.planValid i p hi
+
+theorem sessions_valid (h : GenWF s) : validateSessionGenesis (exportVals session.SessionKey s.sessions) s.params.session = none := by
+  unfold validateSessionGenesis
+  rw [firstOf_eq_none]
+  intro x hx
+  simp only [List.mem_cons, List.not_mem_nil, or_false] at hx
+  rcases hx with rfl | rfl | rfl
+  · exact h.paramsValid.2.2.2.1
+  · rw [chk_eq_none, not_hasDup, exportVals_keys _ _ h.sessKey]; exact exportTbl_nodup _ h.sessNodup
+  · rw [firstErr_eq_none]
+    intro x hx
+    obtain ⟨i, hi⟩ := mem_exportVals.mp hx
+    exact h.sessValid i x hi
+
+theorem vpn_valid (h : GenWF s) : validateVpn (exportVpn s) = none := by
+  unfold validateVpn
+  rw [firstOf_eq_none]
+  intro x hx
+  simp only [List.mem_cons, List.not_mem_nil, or_false] at hx
+  rcases hx with rfl | rfl | rfl | rfl | rfl | rfl <;> rw [pfx_eq_none]
+  · exact deposits_valid h
+  · exact providers_valid h
+  · exact nodes_valid h
+  · exact plans_valid h
+  · show validateSubscriptionGenesis [] s.params.subscription = none
+    unfold validateSubscriptionGenesis
+    rw [firstOf_eq_none]
+    intro y hy
+    simp only [List.mem_cons, List.not_mem_nil, or_false] at hy
+    rcases hy with rfl | rfl
+    · exact h.paramsValid.2.2.1
+    · rfl
+  · exact sessions_valid h
+
+theorem swap_valid (h : GenWF s) : validateSwap (exportSwap s) = none := by
+  unfold validateSwap
+  rw [firstOf_eq_none]
+  intro x hx
+  simp only [List.mem_cons, List.not_mem_nil, or_false] at hx
+  rcases hx with rfl | rfl | rfl
+  · exact h.paramsValid.2.2.2.2
+  · rw [chk_eq_none, not_hasDup]
+    show ((exportVals swap.SwapKey s.swaps).map (·.hash)).Nodup
+    rw [exportVals_keys _ _ h.swapKey]; exact exportTbl_nodup _ h.swapNodup
+  · rw [firstErr_eq_none]
+    intro x hx
+    obtain ⟨i, hi⟩ := mem_exportVals.mp hx
+    exact h.swapValid i x hi
+
+theorem mint_valid (h : GenWF s) : validateMint (exportMint s) = none := by
+  unfold validateMint
+  rw [firstOf_eq_none]
+  intro x hx
+  simp only [List.mem_cons, List.not_mem_nil, or_false] at hx
+  rcases hx with rfl | rfl
+  · rw [chk_eq_none, not_hasDup]
+    show ((exportVals mint.InflationKey s.inflations).map (·.ts)).Nodup
+    rw [exportVals_keys _ _ h.inflKey]; exact exportTbl_nodup _ h.inflNodup
+  · rw [firstErr_eq_none]
+    intro x hx
+    obtain ⟨i, hi⟩ := mem_exportVals.mp hx
+    exact h.inflValid i x hi
+
+/-- The exported genesis of a well-formed state passes `Validate` of all three modules. -/
+theorem export_valid (h : GenWF s) : validateGenesis (exportVpn s) (exportSwap s) (exportMint s) = none := by
+  unfold validateGenesis
+  rw [firstOf_eq_none]
+  intro x hx
+  simp only [List.mem_cons, List.not_mem_nil, or_false] at hx
+  rcases hx with rfl | rfl | rfl <;> rw [pfx_eq_none]
+  · exact vpn_valid h
+  · exact swap_valid h
+  · exact mint_valid h
+
+end valid
+
+/-! ## The re-import succeeds and keeps the surviving component -/
+
+section agree
+variable {s : State}
+
+/-- The re-import of a well-formed state succeeds, with the state `imported s`. -/
+theorem reimport_ok (h : GenWF s) : reimport s = some (imported s) := by
+  unfold reimport
+  rw [export_no_panic h, export_valid h]
+  simp only [Bool.false_eq_true, if_false]
+  rw [initGenesis_exported s (h.node.status _ _) ?_ (h.prov.status _ _)]
+  intro it hit
+  unfold exportPlans at hit
+  obtain ⟨p, hp, rfl⟩ := List.mem_map.mp hit
+  exact h.plan.status _ _ p hp
+
+theorem imported_plan_lists (s : State) :
+    (((exportPlans s).filter (isActive (·.plan.status))).map fun it => (it.plan.id, it.plan)) =
+      (((exportPlanRecs s).filter (isActive (·.status))).map fun p => (p.id, p)) ∧
+    (((exportPlans s).filter (isInactive (·.plan.status))).map fun it => (it.plan.id, it.plan)) =
+      (((exportPlanRecs s).filter (isInactive (·.status))).map fun p => (p.id, p)) := by
+  unfold exportPlans
+  constructor <;> rw [List.filter_map, List.map_map] <;> rfl
+
+theorem mem_exportPlans_iff {s : State} {it : GenesisPlan} :
+    it ∈ exportPlans s ↔ ∃ p ∈ exportPlanRecs s, it = { plan := p, nodes := exportPlanNodes s p.id } := by
+  unfold exportPlans
+  rw [List.mem_map]
+  constructor
+  · rintro ⟨p, hp, rfl⟩; exact ⟨p, hp, rfl⟩
+  · rintro ⟨p, hp, rfl⟩; exact ⟨p, hp, rfl⟩
+
+theorem agree_imported (h : GenWF s) : Agree s (imported s) := by
+  have hsdk := imported_sdk s
+  refine { deposits := ?_, provActive := ?_, provInactive := ?_, nodeActive := ?_, nodeInactive := ?_, nodeQ := ?_,
+           nodeForPlan := ?_, planActive := ?_, planInactive := ?_, planForProv := ?_, planCount := ?_, sessions := ?_,
+           sessQ := ?_, sessForAcc := ?_, sessForNode := ?_, sessForSub := ?_, sessForAlloc := ?_, swaps := ?_,
+           inflations := ?_, params := imported_params s, bank := hsdk.1, supply := hsdk.2.1, time := hsdk.2.2.1,
+           height := hsdk.2.2.2.1, keyed := hsdk.2.2.2.2.1,
+           mint := ⟨hsdk.2.2.2.2.2.1, hsdk.2.2.2.2.2.2.1, hsdk.2.2.2.2.2.2.2.1, hsdk.2.2.2.2.2.2.2.2.1⟩ }
+  · intro k; rw [imported_deposits]; exact get_import_exportTbl _ h.depNodup k
+  · intro k; rw [imported_provActive]; exact h.prov.get_active _ _ k
+  · intro k; rw [imported_provInactive]; exact h.prov.get_inactive _ _ k
+  · intro k; rw [imported_nodeActive]; exact h.node.get_active _ _ k
+  · intro k; rw [imported_nodeInactive]; exact h.node.get_inactive _ _ k
+  · -- node queue: the active nodes at their deadline
+    rintro ⟨t, a⟩
+    rw [imported_nodeQ]
+    apply Tbl.get_unit_ext
+    rw [Tbl.get_keysOn, h.nodeQ t a]
+    unfold exportNodes
+    rw [(h.node.filters _ _).1]
+    simp only [List.mem_map, Prod.mk.injEq, Tbl.get_nil, or_false, reduceCtorEq]
+    constructor
+    · rintro ⟨n, hn, ht, ha⟩
+      obtain ⟨k, hk⟩ := mem_exportVals.mp hn
+      have := (h.node.ownA k n hk).1
+      simp only at this
+      rw [← ha, this]; exact ⟨n, hk, ht⟩
+    · rintro ⟨n, hn, ht⟩
+      exact ⟨n, mem_exportVals.mpr ⟨a, hn⟩, ht, (h.node.ownA a n hn).1⟩
+  · -- links
+    rintro ⟨i, a⟩
+    rw [imported_nodeForPlan]
+    apply Tbl.get_unit_ext
+    rw [Tbl.get_keysOn]
+    simp only [planLinks, List.mem_flatMap, List.mem_map, Prod.mk.injEq, Tbl.get_nil, or_false, reduceCtorEq]
+    constructor
+    · rintro ⟨it, hit, a', ha', hi, rfl⟩
+      obtain ⟨p, hp, rfl⟩ := mem_exportPlans_iff.mp hit
+      simp only at ha' hi
+      rw [exportPlanNodes_eq h.node p.id (linked_nodes_present h p.id)] at ha'
+      rw [← hi]; exact mem_linkedAddrs.mp ha'
+    · intro hl
+      obtain ⟨⟨p, hp⟩, _⟩ := h.links i a hl
+      have hid : p.id = i := by
+        rcases hp with hp | hp
+        · exact (h.plan.ownA i p hp).1
+        · exact (h.plan.ownI i p hp).1
+      refine ⟨{ plan := p, nodes := exportPlanNodes s p.id }, mem_exportPlans_iff.mpr ⟨p, (PartOK.mem _ _).mpr ⟨i, hp⟩, rfl⟩, a, ?_, hid, rfl⟩
+      show a ∈ exportPlanNodes s p.id
+      rw [exportPlanNodes_eq h.node p.id (linked_nodes_present h p.id), hid]
+      exact mem_linkedAddrs.mpr hl
+  · intro k; rw [imported_planActive, (imported_plan_lists s).1]; exact h.plan.get_active _ _ k
+  · intro k; rw [imported_planInactive, (imported_plan_lists s).2]; exact h.plan.get_inactive _ _ k
+  · -- provider index
+    rintro ⟨a, i⟩
+    rw [imported_planForProv]
+    apply Tbl.get_unit_ext
+    rw [Tbl.get_keysOn, h.planIdx a i]
+    simp only [List.mem_map, Prod.mk.injEq, Tbl.get_nil, or_false, reduceCtorEq]
+    constructor
+    · rintro ⟨it, hit, ha, hi⟩
+      obtain ⟨p, hp, rfl⟩ := mem_exportPlans_iff.mp hit
+      obtain ⟨k, hk⟩ := (PartOK.mem _ _).mp hp
+      have hid : p.id = k := by
+        rcases hk with hk | hk
+        · exact (h.plan.ownA k p hk).1
+        · exact (h.plan.ownI k p hk).1
+      simp only at ha hi
+      rw [← hi, hid]; exact ⟨p, hk, ha⟩
+    · rintro ⟨p, hp, ha⟩
+      have hid : p.id = i := by
+        rcases hp with hp | hp
+        · exact (h.plan.ownA i p hp).1
+        · exact (h.plan.ownI i p hp).1
+      exact ⟨{ plan := p, nodes := exportPlanNodes s p.id }, mem_exportPlans_iff.mpr ⟨p, (PartOK.mem _ _).mpr ⟨i, hp⟩, rfl⟩, ha, hid⟩
+  · -- plan counter
+    rw [imported_planCount]
+    obtain ⟨c, hc, hub, hat⟩ := h.planCount
+    rw [hc]
+    congr 1
+    have hmem : ∀ i, i ∈ (exportPlans s).map (·.plan.id) ↔ ∃ p, s.planActive.get i = some p ∨ s.planInactive.get i = some p := by
+      intro i
+      simp only [List.mem_map]
+      constructor
+      · rintro ⟨it, hit, rfl⟩
+        obtain ⟨p, hp, rfl⟩ := mem_exportPlans_iff.mp hit
+        obtain ⟨k, hk⟩ := (PartOK.mem _ _).mp hp
+        have hid : p.id = k := by
+          rcases hk with hk | hk
+          · exact (h.plan.ownA k p hk).1
+          · exact (h.plan.ownI k p hk).1
+        exact ⟨p, by simpa [hid] using hk⟩
+      · rintro ⟨p, hp⟩
+        have hid : p.id = i := by
+          rcases hp with hp | hp
+          · exact (h.plan.ownA i p hp).1
+          · exact (h.plan.ownI i p hp).1
+        exact ⟨{ plan := p, nodes := exportPlanNodes s p.id }, mem_exportPlans_iff.mpr ⟨p, (PartOK.mem _ _).mpr ⟨i, hp⟩, rfl⟩, hid⟩
+    apply maxId_eq
+    · intro i hi
+      obtain ⟨p, hp⟩ := (hmem i).mp hi
+      exact hub i p hp
+    · rcases hat with h0 | ⟨p, hp⟩
+      · exact Or.inl h0
+      · exact Or.inr ((hmem c).mpr ⟨p, hp⟩)
+  · intro k; rw [imported_sessions]; exact get_import_exportVals _ _ h.sessNodup h.sessKey k
+  · rintro ⟨t, i⟩
+    rw [imported_sessQ]
+    apply Tbl.get_unit_ext
+    rw [Tbl.get_keysOn, h.sessQ t i]
+    simp only [List.mem_map, Prod.mk.injEq, Tbl.get_nil, or_false, reduceCtorEq]
+    constructor
+    · rintro ⟨x, hx, ht, hi⟩
+      obtain ⟨k, hk⟩ := mem_exportVals.mp hx
+      rw [← hi, h.sessKey k x hk]; exact ⟨x, hk, ht⟩
+    · rintro ⟨x, hx, ht⟩
+      exact ⟨x, mem_exportVals.mpr ⟨i, hx⟩, ht, h.sessKey i x hx⟩
+  · rintro ⟨a, i⟩
+    rw [imported_sessForAcc]
+    apply Tbl.get_unit_ext
+    rw [Tbl.get_keysOn, h.sessAcc a i]
+    simp only [List.mem_map, Prod.mk.injEq, Tbl.get_nil, or_false, reduceCtorEq]
+    constructor
+    · rintro ⟨x, hx, ht, hi⟩
+      obtain ⟨k, hk⟩ := mem_exportVals.mp hx
+      rw [← hi, h.sessKey k x hk]; exact ⟨x, hk, ht⟩
+    · rintro ⟨x, hx, ht⟩
+      exact ⟨x, mem_exportVals.mpr ⟨i, hx⟩, ht, h.sessKey i x hx⟩
+  · rintro ⟨a, i⟩
+    rw [imported_sessForNode]
+    apply Tbl.get_unit_ext
+    rw [Tbl.get_keysOn, h.sessNode a i]
+    simp only [List.mem_map, Prod.mk.injEq, Tbl.get_nil, or_false, reduceCtorEq]
+    constructor
+    · rintro ⟨x, hx, ht, hi⟩
+      obtain ⟨k, hk⟩ := mem_exportVals.mp hx
+      rw [← hi, h.sessKey k x hk]; exact ⟨x, hk, ht⟩
+    · rintro ⟨x, hx, ht⟩
+      exact ⟨x, mem_exportVals.mpr ⟨i, hx⟩, ht, h.sessKey i x hx⟩
+  · rintro ⟨b, i⟩
+    rw [imported_sessForSub]
+    apply Tbl.get_unit_ext
+    rw [Tbl.get_keysOn, h.sessSub b i]
+    simp only [List.mem_map, Prod.mk.injEq, Tbl.get_nil, or_false, reduceCtorEq]
+    constructor
+    · rintro ⟨x, hx, ht, hi⟩
+      obtain ⟨k, hk⟩ := mem_exportVals.mp hx
+      rw [← hi, h.sessKey k x hk]; exact ⟨x, hk, ht⟩
+    · rintro ⟨x, hx, ht⟩
+      exact ⟨x, mem_exportVals.mpr ⟨i, hx⟩, ht, h.sessKey i x hx⟩
+  · rintro ⟨b, a, i⟩
+    rw [imported_sessForAlloc]
+    apply Tbl.get_unit_ext
+    rw [Tbl.get_keysOn, h.sessAlloc b a i]
+    simp only [List.mem_map, Prod.mk.injEq, Tbl.get_nil, or_false, reduceCtorEq]
+    constructor
+    · rintro ⟨x, hx, hb, ha, hi⟩
+      obtain ⟨k, hk⟩ := mem_exportVals.mp hx
+      rw [← hi, h.sessKey k x hk]; exact ⟨x, hk, hb, ha⟩
+    · rintro ⟨x, hx, hb, ha⟩
+      exact ⟨x, mem_exportVals.mpr ⟨i, hx⟩, hb, ha, h.sessKey i x hx⟩
+  · intro k; rw [imported_swaps]; exact get_import_exportVals _ _ h.swapNodup h.swapKey k
+  · intro k; rw [imported_inflations]; exact get_import_exportVals _ _ h.inflNodup h.inflKey k
+
+end agree
+
 end Hub.Props.C12
